@@ -117,6 +117,13 @@ fn run_check(id: &str, tier: Tier) -> i32 {
                 "hash-map iteration order inside the library fixed by the entropy seed (VERIF_SEED)".into(),
             ];
             seqx::explore(&mut c, id, "seqx");
+            if id == "C03" {
+                // threaded supplement: a reader that begins inside another thread's commit
+                c.assumptions.push("threaded supplement (coverage.threaded.*): one writer thread running chains of three commits against 1-2 reader threads under the controlled scheduler, all schedules up to two preemptions; scheduling points as in C04".into());
+                c.cov_prefix = "threaded.".into();
+                schedx::run(&mut c, "C03", schedx::c03_thread_case_infos(tier), &["free"]);
+                c.cov_prefix.clear();
+            }
             c.finish()
         }
         "C08" => {
